@@ -10,6 +10,10 @@ From RV Require Export Lib.Hex Lib.Bytes Lib.Crc32 Model.Wal Model.Codec Corr.Co
 Import ListNotations.
 Local Open Scope N_scope.
 
+(* long hex strings are printed in pieces (a single literal of > 100 000 characters overflows the
+   stack of the term parser) *)
+Definition cat (l : list string) : string := fold_right append EmptyString l.
+
 Inductive mutation :=
 | MNone
 | MTrunc (k : N)
